@@ -37,9 +37,12 @@ def long_bit_threshold(e):
     return False
 
 
+UNWRAP = "protocol::varint::from"      # impl From<VarInt> for u32: checked below to return the wrapped integer unchanged
+
+
 def is_const(e, name):
     e = ir.peel(e)
-    while e[0] == 'call' and ir.is_transparent(e[1]) and e[2]:
+    while e[0] == 'call' and (ir.is_transparent(e[1]) or e[1] == UNWRAP) and e[2]:
         e = ir.peel(e[2][0])
     return e[0] == 'constdef' and e[1] == name
 
@@ -64,6 +67,14 @@ def run(rep, facts):
     else:
         rep.violation("O1", "constants", "MAX = %d, LONG_BIT = %#x; specification: 2^31-1, 0x80" % (mx, lb))
 
+    # the unwrapping conversion the comparisons may go through is the identity on the wrapped integer
+    for ub in facts.by_npath.get(UNWRAP, []):
+        if F.norm(ub.raw.get("impl_trait", "") or "").endswith("From") and ub.argc == 1:
+            ur = ir.Resolver(ub)
+            rets = [ir.peel(ur.operand({"copy": {"l": 0}}, (bi, -1))) for bi, blk in enumerate(ub.blocks) if blk["t"]["k"] == "return"]
+            if not (rets and all(x[0] == 'field' and str(x[2]) == '0' and ir.peel(x[1])[0] == 'param' for x in rets)):
+                rep.violation("O2", "unwrap-identity", "From<VarInt> for u32 does not return the wrapped integer unchanged", ub.loc())
+
     # ---- O2 -------------------------------------------------------------------------------------------
     b, rows = rows_of(facts, "<protocol::varint::VarInt as std::convert::TryFrom<u32>>::try_from")
     tab = {}
@@ -76,10 +87,18 @@ def run(rep, facts):
             continue
         e, lab = cs[0]
         pe = ir.peel(e)
-        if not (pe[0] == 'bin' and pe[1] == 'Gt' and ir.peel(pe[2])[0] == 'param' and is_const(pe[3], MAXC)):
+        # which side of MAX the value is on along this path, however the comparison is spelled
+        fact = ir.cmp_fact(e, lab)
+        truth = None
+        if fact is not None:
+            a_, b_ = ir.peel(fact[1]), ir.peel(fact[2])
+            if fact[0] == 'lt' and is_const(a_, MAXC) and b_[0] == 'param':
+                truth = True        # MAX < v
+            elif fact[0] == 'le' and a_[0] == 'param' and is_const(b_, MAXC):
+                truth = False       # v <= MAX
+        if truth is None:
             tab['?'] = ir.show(pe)
             continue
-        truth = isinstance(lab, tuple) and lab[0] == 'otherwise'
         res = variant_of(r.ret)
         inner = agg_field(r.ret, 0)
         if res == 'Err':
@@ -156,29 +175,61 @@ def run(rep, facts):
         te, lab = tests[0]
         band = ir.peel(te[2])
         zero = cv(te[3]) == 0
-        idx0 = band[0] == 'bin' and band[1] == 'BitAnd' and ir.peel(band[2])[0] == 'index' and cv(ir.peel(band[2])[2]) == 0 and is_const(band[3], LONG)
+
+        def window(e):
+            """(start, end) of a view into the 4-byte scratch array: buf[..1], buf[1..], split_at_mut(buf, 1).0/.1, buf itself"""
+            e = ir.peel(e)
+            if e[0] == 'agg' and e[1] == 'repeat':
+                return (0, int(e[2])) if str(e[2]).isdigit() else None
+            if e[0] == 'call' and (e[1].endswith("index") or e[1].endswith("index_mut")) and len(e[2]) == 2:
+                base = window(e[2][0])
+                rg = ir.peel(e[2][1])
+                if base is None or rg[0] != 'agg':
+                    return None
+                d = {str(k): cv(v) for k, v in rg[3]}
+                if rg[2].endswith("RangeTo"):
+                    return (base[0], base[0] + d.get("end")) if d.get("end") is not None else None
+                if rg[2].endswith("RangeFrom"):
+                    return (base[0] + d.get("start"), base[1]) if d.get("start") is not None else None
+                if rg[2].endswith("Range"):
+                    return (base[0] + d["start"], base[0] + d["end"]) if d.get("start") is not None and d.get("end") is not None else None
+                return None
+            if e[0] == 'field' and str(e[2]) in ('0', '1'):
+                sp = ir.peel(e[1])
+                if sp[0] == 'call' and (sp[1].endswith("split_at_mut") or sp[1].endswith("split_at")) and len(sp[2]) == 2:
+                    base = window(sp[2][0])
+                    mid = cv(sp[2][1])
+                    if base is not None and mid is not None:
+                        return (base[0], base[0] + mid) if str(e[2]) == '0' else (base[0] + mid, base[1])
+            return None
+
+        def byte0(e):
+            e = ir.peel(e)
+            if e[0] == 'index' and cv(e[2]) is not None:
+                w = window(e[1])
+                return w is not None and w[0] + cv(e[2]) == 0
+            return False
+        idx0 = band[0] == 'bin' and band[1] == 'BitAnd' and byte0(band[2]) and is_const(band[3], LONG)
         bit_clear = (isinstance(lab, tuple) and lab[0] == 'otherwise') == (te[1] == 'Eq')
         reads = [c for c in r.calls if c[0] == "std::io::Read::read_exact"]
-        ranges = []
-        for c in reads:
-            rg = [x for x in ir.walk(c[1][1]) if x[0] == 'agg' and x[2].startswith("std::ops::Range")]
-            buf = [x for x in ir.walk(c[1][1]) if x[0] == 'agg' and x[1] == 'repeat']
-            ranges.append((rg[0][2].split("::")[-1], {k: cv(v) for k, v in rg[0][3]}, buf[0][2] if buf else None) if rg else None)
+        ranges = [window(c[1][1]) for c in reads]
         if zero and idx0 and bit_clear:
             # short form
             v2 = val
-            while v2[0] == 'call' and ir.is_transparent(v2[1]):
-                v2 = ir.peel(v2[2][0])
-            short = (v2[0] == 'index' and cv(v2[2]) == 0 and ranges == [("RangeTo", {"end": 1}, "4")])
+            while (v2[0] == 'call' and ir.is_transparent(v2[1])) or (v2[0] == 'agg' and v2[2].endswith("VarInt::VarInt")):
+                v2 = ir.peel(v2[2][0]) if v2[0] == 'call' else ir.peel(v2[3][0][1])
+                if v2[0] == 'cast':
+                    v2 = ir.peel(v2[2])
+            short = (byte0(v2) and ranges == [(0, 1)])
         elif zero and idx0 and not bit_clear:
-            clears = [w for w in r.writes if w[0][0] == 'index' and cv(w[0][2]) == 0]
+            clears = [w for w in r.writes if w[0][0] == 'index' and byte0(w[0])]
             cl_ok = False
             for (pl, vv, n, st) in clears:
                 x = ir.peel(vv)
                 if x[0] == 'bin' and x[1] == 'BitAnd' and ir.peel(x[3])[0] == 'un' and ir.peel(x[3])[1] == 'Not' and is_const(ir.peel(x[3])[2], LONG):
                     cl_ok = True
             be = val[0] == 'agg' and val[2].endswith("VarInt::VarInt") and ir.peel(val[3][0][1])[0] == 'call' and ir.peel(val[3][0][1])[1] == "core::num::from_be_bytes"
-            long_ = cl_ok and be and ranges == [("RangeTo", {"end": 1}, "4"), ("RangeFrom", {"start": 1}, "4")]
+            long_ = cl_ok and be and ranges == [(0, 1), (1, 4)]
     if short and long_:
         rep.ok("O4", "read/forms", "bit LONG_BIT of byte 0 clear => that byte; set => clear it with !LONG_BIT, read 3 more bytes, u32::from_be_bytes", b.loc())
     else:
